@@ -346,8 +346,11 @@ std::pair<ebpps_sample<T, A>, size_t> ebpps_sample<T, A>::deserialize(const uint
   ensure_minimum_memory(size, sizeof(double));
   double c;
   ptr += copy_from_mem(ptr, c);
-  if (c < 0.0)
+  if (!(c >= 0.0)) // also rejects NaN
     throw std::runtime_error("sketch image has C < 0.0 during deserializaiton");
+  // every serialized item takes at least one byte: do not let a corrupted C drive the allocation
+  if (c > static_cast<double>(size))
+    throw std::out_of_range("Possible corruption: C exceeds the size of the image");
 
   double c_int;
   const double c_frac = std::modf(c, &c_int);
